@@ -61,7 +61,7 @@ def run(cwd, module, cfg=None, workers=None, timeout=600, env=None, args=(), hea
         dfs=False):
     workers = workers or common.NCPU
     meta = tempfile.mkdtemp(prefix='meta-%s-' % module, dir=cwd)
-    jopts = ['-XX:+UseParallelGC']
+    jopts = ['-XX:+UseParallelGC', '-Xss64m']
     if heap:
         jopts.append('-Xmx%s' % heap)
     if dfs:
